@@ -18,7 +18,9 @@ def fq(a):
 def fit_kde(D, w, G, cell, s, Q, fp, fs, reach=None, prior=None):
     from skmatter.neighbors import SparseKDE
     mp_ = {"cell_length": np.asarray(cell, float) / s} if len(cell) else None
-    kde = core.mk(SparseKDE, descriptors=np.asarray(D, float) / s, weights=np.asarray(w, float).copy(), metric_params=mp_, fpoints=fp, fspread=fs)
+    # equal weights are passed as None (the documented default: uniform weights) half of the time
+    wts = None if (len(set(int(v) for v in w)) == 1 and (int(np.sum(D)) + len(G)) % 2 == 0) else np.asarray(w, float).copy()
+    kde = core.mk(SparseKDE, descriptors=np.asarray(D, float) / s, weights=wts, metric_params=mp_, fpoints=fp, fspread=fs)
     Gf = np.asarray(G, float) / s
     if prior is not None:
         # history: the same estimator object was fitted on another grid of the same size and queried before
@@ -82,7 +84,7 @@ def case(cid, rng):
         D = rng.integers(0, 22, size=(nd, dim))
     if periodic:
         D = D % np.array(cell)
-    w = rng.integers(1, 5, size=nd)
+    w = rng.integers(1, 5, size=nd) if rng.random() < 0.85 else np.full(nd, int(rng.integers(1, 4)))
     # distinct grid points (a grid with coincident points is not a valid input)
     uniq = np.unique(D, axis=0)
     rng.shuffle(uniq)
